@@ -69,7 +69,7 @@ pub fn vehicle_type(type_id: &str, ids: usize, capacity: &[i64], shifts: Vec<PSh
 }
 
 fn base(name: String, jobs: Vec<PJob>, vehicles: Vec<PVehicleType>) -> PProblem {
-    PProblem { name, jobs, vehicles, matrices: vec![standard_matrix("car", 5)], relations: vec![], objectives: None }
+    PProblem { name, jobs, vehicles, matrices: vec![standard_matrix("car", 5)], relations: vec![], objectives: None, clustering: None }
 }
 
 fn multisets(n: usize, k: usize) -> Vec<Vec<usize>> {
@@ -553,6 +553,7 @@ pub fn family_line12() -> Vec<PProblem> {
                 vehicles: vec![v],
                 matrices: vec![PMatrix { profile: "car".into(), n, durations: line.clone(), distances: line, error_codes: None }],
                 relations: vec![],
+                clustering: None,
                 objectives: Some(if objective_set == 0 {
                     json!([{"type": "minimize-unassigned"}, {"type": "minimize-tours"}, {"type": "compact-tour", "job_radius": 2}, {"type": "minimize-cost"}])
                 } else {
@@ -630,6 +631,51 @@ pub fn family_fleet4(_tier: Tier) -> Vec<PProblem> {
                     p.relations = vec![PRelation { kind: "any".into(), jobs: vec!["d1".into(), "d2".into()], vehicle_id: "v_2".into(), shift_index: Some(0) }];
                 }
                 out.push(p);
+            }
+        }
+    }
+    out
+}
+
+/// F-cluster: vicinity clustering (judged by the accounting rules only): jobs close to each other, relations and
+/// explicit filtering.
+pub fn family_cluster() -> Vec<PProblem> {
+    use TaskKind::*;
+    let mut out = vec![];
+    let jobs = vec![
+        job("c1", vec![task(Delivery, vec![place(1, 3., &[], None)], &[1])]),
+        job("c2", vec![task(Delivery, vec![place(1, 2., &[], None)], &[1])]),
+        job("c3", vec![task(Delivery, vec![place(2, 2., &[], None)], &[1])]),
+        job("c4", vec![task(Delivery, vec![place(4, 2., &[], None)], &[1])]),
+        job("c5", vec![task(Pickup, vec![place(2, 1., &[], None)], &[1])]),
+    ];
+    let relations: Vec<Option<(&str, Vec<&str>)>> =
+        vec![None, Some(("any", vec!["c1"])), Some(("any", vec!["c2", "c3"])), Some(("sequence", vec!["c1", "c4"])), Some(("strict", vec!["departure", "c3"]))];
+    let filterings = vec![None, Some(json!({"excludeJobIds": ["c3"]})), Some(json!({"excludeJobIds": []})), Some(json!({"excludeJobIds": ["c4", "c5"]}))];
+    let servings = vec![json!({"type": "original", "parking": 5.0}), json!({"type": "multiplier", "value": 0.5, "parking": 0.0}), json!({"type": "fixed", "value": 1.0, "parking": 2.0})];
+    for (ri, rel) in relations.iter().enumerate() {
+        for (fi, filtering) in filterings.iter().enumerate() {
+            for (si, serving) in servings.iter().enumerate() {
+                for visiting in ["continue", "return"] {
+                    // thin: every combination of relation x filtering, the other axes rotate
+                    if (ri + fi + si) % 3 != 0 && visiting == "return" {
+                        continue;
+                    }
+                    let mut p = base(format!("cluster/r{ri}/f{fi}/s{si}/{visiting}"), jobs.clone(), vec![vehicle_type("v", 2, &[4], vec![shift(ShiftKind::Closed)])]);
+                    let mut c = json!({
+                        "type": "vicinity", "profile": {"matrix": "car"},
+                        "threshold": {"duration": 30.0, "distance": 60.0},
+                        "visiting": visiting, "serving": serving,
+                    });
+                    if let Some(f) = filtering {
+                        c["filtering"] = f.clone();
+                    }
+                    p.clustering = Some(c);
+                    if let Some((kind, rel_jobs)) = rel {
+                        p.relations = vec![PRelation { kind: kind.to_string(), jobs: rel_jobs.iter().map(|s| s.to_string()).collect(), vehicle_id: "v_1".into(), shift_index: Some(0) }];
+                    }
+                    out.push(p.fit_matrices());
+                }
             }
         }
     }
